@@ -357,7 +357,8 @@ def validate_batch(
     with ThreadPoolExecutor(max_workers=jobs) as ex:
         for ix, chunk, r in ex.map(one, list(enumerate(chunks))):
             if not r.ok:
-                raise Machinery(f"trace validation with {module} failed (rc={r.rc}):\n{r.tail(60)}")
+                cause = [l for l in r.out.splitlines() if ("xception" in l or "Error" in l or "overflow" in l.lower()) and "error occurred when TLC was evaluating" not in l]
+                raise Machinery(f"trace validation with {module} failed (rc={r.rc}):\n" + "\n".join(cause[:12]) + f"\n...\n{r.tail(60)}")
             st["states"] += r.distinct
             st["transitions"] += r.transitions
             local: dict = {}
